@@ -24,6 +24,7 @@ VARIABLES
   auth,     \* server's authentication behaviour
   fault,    \* [at |-> 0..n (0 = cluster request), kind]  or NoFault with kind "none"
   cli,      \* TRUE: the whole CLI run; FALSE: library level (DownloadClusterLogs then DeleteClusterLogs)
+  keyOk,    \* CLI with --encrypt: the key file can be loaded / created (the key stage of main.go precedes every request)
   pc,       \* program counter
   cur,      \* target of the request in flight (0 = cluster, i = host i) / index of the file being redacted
   reqLog,   \* Seq([t, authed]) - every request the server has seen, in order
@@ -34,17 +35,21 @@ VARIABLES
   retried,  \* the transport has re-sent the request in flight once (connection reset on a reused connection)
   exit      \* -1 running, 0 / 1 exit status (library: 0 = nil error, 1 = error)
 
-envVars == <<n, auth, fault, cli>>
-vars == <<n, auth, fault, cli, pc, cur, reqLog, tmp, reg, outs, touched, retried, exit>>
+envVars == <<n, auth, fault, cli, keyOk>>
+vars == <<n, auth, fault, cli, keyOk, pc, cur, reqLog, tmp, reg, outs, touched, retried, exit>>
 
 Hosts == 1..n
 
 AtlasInit ==
-  /\ pc = "send" /\ cur = 0 /\ reqLog = <<>> /\ tmp = {} /\ reg = <<>> /\ outs = {} /\ touched = {} /\ retried = FALSE /\ exit = -1
+  /\ pc = (IF keyOk THEN "send" ELSE "keyfail") /\ (~keyOk => cli) /\ cur = 0 /\ reqLog = <<>> /\ tmp = {} /\ reg = <<>> /\ outs = {} /\ touched = {} /\ retried = FALSE /\ exit = -1
   /\ fault.at \in 0..n
   /\ (fault.kind = "none" => fault.at = 0)
   /\ (fault.kind \in FileFaults \cup {"cut"} => fault.at >= 1)
   /\ (fault.kind \in FileFaults => cli)
+
+\* the key file of --encrypt is unusable: the run ends before anything is requested or downloaded
+KeyFail == /\ pc = "keyfail" /\ exit' = 1 /\ pc' = "done"
+           /\ UNCHANGED <<envVars, cur, reqLog, tmp, reg, outs, touched, retried>>
 
 Log(t, a) == reqLog' = Append(reqLog, [t |-> t, authed |-> a])
 FaultHere(kinds) == fault.at = cur /\ fault.kind \in kinds
@@ -125,7 +130,7 @@ CleanupFail == /\ pc = "cleanupFail" /\ tmp' = tmp \ Range(reg) /\ exit' = 1 /\ 
 CleanupOk   == /\ pc = "cleanupOk" /\ tmp' = tmp \ Range(reg) /\ exit' = 0 /\ pc' = "done"
                /\ UNCHANGED <<envVars, cur, reqLog, reg, outs, touched, retried>>
 
-AtlasNext == SendUnauth \/ SendAuth \/ TransportRetry \/ Response \/ CopyBody \/ DownloadFail \/ Downloaded
+AtlasNext == KeyFail \/ SendUnauth \/ SendAuth \/ TransportRetry \/ Response \/ CopyBody \/ DownloadFail \/ Downloaded
              \/ CreateOut \/ RedactFile \/ CleanupFail \/ CleanupOk
 AtlasSpec == AtlasInit /\ [][AtlasNext]_vars /\ WF_vars(AtlasNext)
 
@@ -157,6 +162,8 @@ NoChallengeNoCredentials ==
       /\ auth \in {"digest", "reject"}
       /\ \E j \in 1..(i - 1) : reqLog[j].t = reqLog[i].t /\ ~reqLog[j].authed
 \* a fault never turns into success
-FaultMeansFailure == Done /\ fault.kind # "none" /\ (fault.kind # "reset") => exit = 1
+FaultMeansFailure == Done /\ (~keyOk \/ (fault.kind # "none" /\ fault.kind # "reset")) => exit = 1
+\* nothing is requested, let alone downloaded, before the key stage has succeeded
+KeyStageFirst == ~keyOk => reqLog = <<>> /\ tmp = {}
 Terminates == <>Done
 =============================================================================
